@@ -661,6 +661,13 @@ def equal(a, b):
         return mk(z3.And(sa.n == sb.n,
                          z3.ForAll([j], z3.Implies(z3.And(j >= 0, j < sa.n),
                                                    z3.Select(sa.arr, j + sa.off) == z3.Select(sb.arr, j + sb.off)))), 'bool')
+    if isinstance(a, dict) and isinstance(b, dict):
+        if set(a.keys()) != set(b.keys()):
+            return False
+        acc = True
+        for k in a:
+            acc = land(acc, compare('==', a[k], b[k]))
+        return acc
     if isinstance(a, SSet) and isinstance(b, SSet):
         j = z3.Int('j!se')
         return mk(z3.ForAll([j], z3.Select(a.pred, j) == z3.Select(b.pred, j)), 'bool')
